@@ -134,6 +134,12 @@ func ExecRun(t *testing.T, spec RunSpec) (res RunResult) {
 	res.States = w.States
 	w.flushStep()
 	res.Text = w.Text
+	// goroutines that could not be unwound (a caller the library left
+	// hanging) keep their stacks: cut what those reference
+	if f, ok := w.X.(*Flow); ok {
+		*f = Flow{}
+	}
+	*w = World{}
 	return res
 }
 
@@ -278,12 +284,16 @@ func (f *Flow) runGeneration(adopt bool) {
 			store = &obsStore{f: f, P: mqtt.FileSystem(fsDir), fs: f.FS}
 		}
 		s.Env = f.env
+		s.StarveP = o.StarveP
 		if o.NoTick {
 			s.tickW = 0
 		}
 		s.StepHook = f.stepHook
 		s.Done = f.done
-		s.OnLoopEnd = func() { f.ReaderInEnd = f.ReaderIn }
+		s.OnLoopEnd = func() {
+			f.ReaderInEnd = f.ReaderIn
+			f.stalledInFaultPhase()
+		}
 		s.Unwind = func() {
 			if f.C != nil {
 				c := f.C
@@ -339,6 +349,9 @@ func (f *Flow) runGeneration(adopt bool) {
 			for i := 0; i < o.Requesters; i++ {
 				name := fmt.Sprintf("req%d", i)
 				s.Go(name, func() { f.reqTask(s, name, o.PerReq) })
+			}
+			if f.Custom != nil {
+				f.Custom(f, s)
 			}
 		})
 	})
@@ -726,6 +739,7 @@ func init() {
 		o.PerReq = 2 + f.W.Tape.Draw("perreq12", 3)
 		o.Inbound = f.W.Tape.Draw("nin12", 4)
 		o.QuitMix = [4]int{3, 1, 1, 1}
+		o.LazyExchanges = f.W.Tape.Flip("lazy-exchanges", 400)
 	}
 	register("C12", Family{Name: "closers", Weight: 3, Run: flowFamily(closeTune, "closer_dialing", "closer_awaiting-connack", "closer_resending", "closer_online-writer-in-flight", "closer_offline", "closer_online", "closer_never-connected")},
 		Family{Name: "close-sweep", Weight: 1, Sweep: true, Run: func(w *World, spec *RunSpec, res *RunResult) {
@@ -755,17 +769,57 @@ func init() {
 		f.O.BigPayload = 200
 		f.O.Budget += 6
 	}, "short_write_timeout", "write_break")})
-	register("C11", Family{Name: "requests", Weight: 1, Run: flowFamily(func(f *Flow) {
+	register("C11", Family{Name: "requests", Weight: 80, Run: flowFamily(func(f *Flow) {
 		f.O.Publishers = f.W.Tape.Draw("npub11", 2)
 		f.O.Requesters = 2 + f.W.Tape.Draw("nreq11", 6)
 		f.O.PerReq = 1 + f.W.Tape.Draw("perreq11", 5)
 		f.O.ReqMix = [rkKinds]int{1, 0, 3, 1, 1, 3, 3}
+		if f.W.Tape.Flip("ping-heavy", 300) {
+			// the single ping slot under contention: quits, lost
+			// connections and pongs of abandoned pings
+			f.O.ReqMix = [rkKinds]int{2, 0, 1, 0, 0, 1, 10}
+			f.O.QuitMix = [4]int{2, 1, 3, 4}
+			f.O.Requesters = 2 + f.W.Tape.Draw("nreq11p", 3)
+			f.O.PerReq = 3 + f.W.Tape.Draw("perreq11p", 5)
+		}
 	}, "answered_request", "quit_closed_during_request")})
+	// the single ping slot: several pingers with quits behind a busy write
+	// lock, so that pongs of abandoned pings meet callbacks of pings that
+	// still wait for their submission
+	register("C11", Family{Name: "ping-slot", Weight: 20, Run: flowFamily(func(f *Flow) {
+		o := &f.O
+		o.Publishers = 0
+		o.BigPayload = 500
+		o.Inbound = 0
+		o.Requesters = 2 + f.W.Tape.Draw("nreq11s", 3)
+		o.PerReq = 4 + f.W.Tape.Draw("perreq11s", 8)
+		o.ReqMix = [rkKinds]int{2, 0, 0, 0, 0, 0, 8}
+		o.QuitMix = [4]int{1, 0, 2, 6}
+	}, "answered_ping", "quit_closed_during_request")})
+	register("C11", Family{Name: "id-window", Weight: 1, Run: flowFamily(func(f *Flow) {
+		o := &f.O
+		o.Publishers, o.Requesters, o.Inbound = 0, 0, 0
+		o.Net = NetOpts{Pipe: o.Net.Pipe}
+		o.Disk = DiskOpts{}
+		o.BreakW, o.Budget = 0, 0
+		o.PauseTimeout = 250 * time.Millisecond
+		f.W.MaxSteps = 2000000
+		f.Custom = func(f *Flow, s *Sim) { f.idWindowTasks(s) }
+	}, "identifier_window_wrapped")})
 	register("C14", Family{Name: "matrix", Weight: 1, Run: flowFamily(func(f *Flow) {
 		f.O.Publishers = f.W.Tape.Draw("npub14", 2)
 		f.O.Requesters = 2 + f.W.Tape.Draw("nreq14", 4)
 		f.O.PerReq = 2 + f.W.Tape.Draw("perreq14", 5)
 		f.O.QuitMix = [4]int{2, 1, 2, 3}
+		// rejected persisted publishes (storage errors) against small windows
+		if f.W.Tape.Flip("persist14", 400) {
+			f.O.Publishers = 1 + f.W.Tape.Draw("npub14b", 2)
+			f.O.PerPub = 3 + f.W.Tape.Draw("perpub14", 6)
+			f.O.ALOMax = 1 + f.W.Tape.Draw("alomax14", 3)
+			f.O.EOMax = 1 + f.W.Tape.Draw("eomax14", 3)
+			f.O.Disk.ErrBefore = 120
+			f.O.Budget += 3
+		}
 	}, "class_ErrSubmit", "class_ErrBreak", "class_ErrDown", "class_ErrCanceled", "class_ErrAbandoned")})
 	register("C17", Family{Name: "windows", Weight: 1, Run: flowFamily(func(f *Flow) {
 		f.O.ALOMax = []int{1, 0, 2, 3, -1, 20000}[f.W.Tape.Draw("alomax17", 6)]
